@@ -514,8 +514,9 @@ class FJParser(sly.Parser):
         error_occurred = True
 
         if token is None:
+            # the input ended in the middle of a statement - there is no token (and no line) to point at
             error_string = (
-                f'Syntax Error in {get_position(self.line_position(None))}. '
+                f'Syntax Error at the end of file {curr_file}: unexpected end of input. '
                 f'Maybe missing }} or {{ before this line?'
             )
         else:
